@@ -441,8 +441,10 @@ static void debugger (void *a) {
 	int k;
 	char buf[200];
 	for (k = 0; k < 8; k++) {
+		int pick = (int) vrt_rand (4);
+		vrt_note ("dbgcall %d %d", vrt_self (), pick == 0 ? 0 : pick == 1 ? 9 : 1);   /* for replay/cvdbg_replay.ml: 0 cv state, 1 cv state + waiters, 9 mutex */
 		vrt_observer_begin (buf, sizeof (buf));      /* C16: a debug-state call writes nothing but its buffer (and its own stack) */
-		switch (vrt_rand (4)) {
+		switch (pick) {
 		case 0: nsync_cv_debug_state (&cv, buf, (int) sizeof (buf)); break;
 		case 1: nsync_mu_debug_state_and_waiters (&mu, buf, (int) sizeof (buf)); break;
 		default: nsync_cv_debug_state_and_waiters (&cv, buf, (int) sizeof (buf)); break;
